@@ -219,7 +219,7 @@ def _eval(ctx, corr, name, ty, chk, recs, shard, describe):
         m = re.search(r"M\s*=\s*(.*?)\s*:\s*list \(nat \* nat\)", o, re.S)
         if rc != 0 or not m:
             corr.mismatches.append({"kind": "coq-eval", "shard": nm, "output": o[-1200:]}); continue
-        pairs = re.findall(r"\((\d+)(?:%nat)?,\s*(\d+)(?:%nat)?\)", m.group(1))
+        pairs = re.findall(r"\(\s*(\d+)(?:%nat)?\s*,\s*(\d+)(?:%nat)?\s*\)", m.group(1))
         if m.group(1).strip() != "[]" and not pairs:
             corr.mismatches.append({"kind": "coq-eval", "shard": nm, "output": o[-1200:]})
         for idx, mask in pairs[:6]:
@@ -303,7 +303,7 @@ def correspond(ctx):
         m = re.search(r"M\s*=\s*(.*?)\s*:\s*list \(nat \* nat\)", o, re.S)
         if rc2 != 0 or not m:
             c.mismatches.append({"kind": "coq-eval", "shard": nm, "output": o[-1200:]}); continue
-        pairs = re.findall(r"\((\d+)(?:%nat)?,\s*(\d+)(?:%nat)?\)", m.group(1))
+        pairs = re.findall(r"\(\s*(\d+)(?:%nat)?\s*,\s*(\d+)(?:%nat)?\s*\)", m.group(1))
         if m.group(1).strip() != "[]" and not pairs:
             c.mismatches.append({"kind": "coq-eval", "shard": nm, "output": o[-1200:]})
         for idx, mask in pairs[:4]:
